@@ -351,6 +351,10 @@ def encrypt_sym(alg_i, fix_mode=None):
             return True
         if fix_mode is not None and mode_i != fix_mode:
             return True
+        if boom > 1:
+            return True                 # one injected exception class here; all three classes in the MAC condition
+        if alg_name == "ARC4" and pad_i not in (0, 2):
+            return True                 # padding is irrelevant for the stream cipher: absent / one method
         blk = BLOCK.get(alg_name, 64) // 8
         if len(iv) not in (blk, blk - 1):
             return True
@@ -783,7 +787,7 @@ def conditions(tier):
                             bounds="%s, mode %s: padding None/PKCS5/ANSI_X923/ZEROS, key of smallest/largest valid size "
                                    "or 3 bytes, plaintext of 0,1,block-1,block,block+1,2*block arbitrary bytes, IV supplied "
                                    "(arbitrary bytes) or generated, AAD present or not, tag length absent or 0/3/4/16, the "
-                                   "algorithm constructor behaving or raising ValueError/TypeError/UnsupportedAlgorithm"
+                                   "algorithm constructor behaving or raising ValueError"
                                    % (name, mname), timeout=1200, part="symmetric"))
         out.append(Cond("decrypt-garbage-%s" % name, "decrypt_garbage", dict(alg_i=i),
                         bounds="%s: every supported mode, both paddings, data of <=3 arbitrary bytes presented as cipher "
